@@ -83,9 +83,21 @@ def predicate(ctx, optic, case, par, w):
         if not (np.all(np.isfinite(yp)) and np.all(np.isfinite(up))):
             ctx.count('pred: paraxial ray not finite (degenerate lens)')
             continue
+        # "small aperture and field" is relative to the lens: the full-scale paraxial ray of a nearly afocal lens
+        # with an F-number aperture can be metres high (EPD = |f2|/FNO).  The scale factors start where the ray
+        # height is at most a quarter of the smallest radius of curvature.
+        rmin = min([abs(float(s.geometry.radius)) for s in optic.surface_group.surfaces
+                    if math.isfinite(float(s.geometry.radius)) and float(s.geometry.radius) != 0] or [math.inf])
+        hmax = float(np.max(np.abs(yp)))
+        shrink = 1.0
+        while hmax * shrink * es[0] > 0.25 * rmin and shrink > 2.0 ** -30:
+            shrink *= 0.5
+        if shrink < 1.0:
+            ctx.count('pred: scale factors reduced to the size of the lens (x 2^%d)' % round(math.log2(shrink)))
+        es_k = [e * shrink for e in es]
         ys, ts, gs = [], [], []
         ok = True
-        for e in es:
+        for e in es_k:
             try:
                 y, t, g = real_scaled(optic, kind, e, w)
             except RuntimeError:
@@ -240,6 +252,8 @@ def run(tier, seed, replay=None):
     from .core import run_parallel
     run_parallel(ctx, 'harness.c05', 'work', cases, nproc=4 if ctx.quick() else None)
     return finish(ctx, aud,
-                  partial=['rate of convergence (O(eps^2)) is measured, not proved; the jet theorem is proved for one '
-                           'refracting conic surface, the whole-lens statement is exercised through the jet driver'],
+                  partial=['rate of convergence (O(eps^2)) is measured, not proved',
+                           'the whole-lens jet theorem (traceLens_jet / mtrace_jet: conic and plane surfaces, mirrors, '
+                           'image) starts from the paraxial launch data; the launch of RayGenerator itself over jets '
+                           '(marginal_jet_partial, chief_jet_partial) and aspheres are exercised through the jet driver'],
                   assumptions=['forward-mode (dual-number) evaluation computes the derivative of the composite'])
